@@ -17,7 +17,10 @@ def one(d: Path):
     sc = Path(tempfile.mkdtemp(prefix="tangelo-seed-", dir=str(base)))
     try:
         shutil.copytree("/repo/tangelo", sc / "tangelo", ignore=shutil.ignore_patterns("__pycache__", "*.pyc"))
-        r = subprocess.run(["patch", "-p1", "-s", "-f", "-d", str(sc), "-i", str(d / "patch.diff")], capture_output=True, text=True)
+        # patch.diff is the mutation as it was delivered and confirmed; where a later fix commit rewrote the same lines, patch_current.diff is the same
+        # mutation re-expressed against the current tree
+        pf = d / "patch_current.diff" if (d / "patch_current.diff").exists() else d / "patch.diff"
+        r = subprocess.run(["patch", "-p1", "-s", "-f", "-d", str(sc), "-i", str(pf)], capture_output=True, text=True)
         if r.returncode != 0:
             return d.name, prop, "PATCH-FAILS", r.stdout[-200:]
         env = dict(os.environ, SA_REPO=str(sc), SA_NO_SELFTEST="1", PYTHONPATH=str(VERIF))
